@@ -97,7 +97,9 @@ pub enum Node {
 /// "a" and ""): the status of a `case` command that runs no item is zero all the same
 pub const CASE_SUBJECTS: [&str; 6] = ["a", "b", "ab", "", "a$(st 3)", "$(st 2)"];
 pub const CASE_SUBJECT_VALUES: [&str; 6] = ["a", "b", "ab", "", "a", ""];
-pub const CASE_PATTERNS: [&str; 7] = ["a", "b", "*", "a*", "?b", "''", "[!a]"];
+/// the last two are unquoted expansions that yield nothing: an empty pattern (matches only the
+/// empty subject), not "no pattern"
+pub const CASE_PATTERNS: [&str; 9] = ["a", "b", "*", "a*", "?b", "''", "[!a]", "${e-}", "$e${e-}"];
 
 #[derive(Clone, Debug, PartialEq, Eq, Hash, Serialize, Deserialize)]
 pub struct Program {
@@ -1127,7 +1129,7 @@ impl<'a> Model<'a> {
                 for (pats, b) in items {
                     for pi in pats {
                         let ptext = CASE_PATTERNS[*pi as usize];
-                        let pcs = if ptext == "''" { vec![] } else { fm::pcs_plain(ptext) };
+                        let pcs = if ptext == "''" || ptext.starts_with('$') { vec![] } else { fm::pcs_plain(ptext) };
                         let atoms = fm::parse(&pcs).expect("case patterns are well-defined");
                         if fm::full_match(&atoms, &subj) {
                             if subst {
